@@ -46,11 +46,12 @@ Cat(code) == IF code = "" THEN "" ELSE IF code \in DOMAIN Reg THEN Reg[code] ELS
 \* the classification part of an observation, and the full observation in canonical form
 ClsOfObs(o) == [fatal |-> o.fatal, code |-> o.code, sents |-> ToSet(o.sents), gst |-> o.gst]
 Canon(o) == [fatal |-> o.fatal, code |-> o.code, ccat |-> o.ccat, sents |-> ToSet(o.sents), gst |-> o.gst,
-             exit |-> o.exit, api |-> o.api, api2 |-> o.api2, apir |-> o.apir, rt |-> o.rt, rtcat |-> o.rtcat]
+             exit |-> o.exit, api |-> o.api, api2 |-> o.api2, api3 |-> o.api3, api4 |-> o.api4, apir |-> o.apir, rt |-> o.rt, rtcat |-> o.rtcat]
 \* every observable as the fixed function of a classification that the specification says it is
 Full(c) == LET cc == Cat(c.code) IN
            [fatal |-> c.fatal, code |-> c.code, ccat |-> cc, sents |-> c.sents, gst |-> c.gst,
             exit |-> ExitOf(c, cc), api |-> ApiCat(c, cc), api2 |-> ApiCatPlugin(c, cc),
+            api3 |-> ApiCatPlugin(c, cc), api4 |-> ApiCatPlugin(c, cc),
             apir |-> ApiReason(c), rt |-> c.code, rtcat |-> cc]
 
 \* a violated clause: its name and kind; all clauses a case violates go into ONE record of viol,
@@ -103,12 +104,15 @@ Step ==
               Add(o.fatal = Marked(t), "FatalIffMarked", kind)
               \cup Add(o.code = e.code /\ o.ccat = ef.ccat, "CodeKept", kind)
               \cup Add(o.sents = e.sents, "SentinelKept", kind)
-              \cup Add(o.gst = e.gst /\ o.api = ef.api /\ o.api2 = ef.api2 /\ o.apir = ef.apir,
+              \cup Add(o.gst = e.gst /\ o.api = ef.api /\ o.api2 = ef.api2 /\ o.api3 = ef.api3 /\ o.api4 = ef.api4 /\ o.apir = ef.apir,
                        "StatusKept", kind)
               \* ---- on observed values only
               \cup Add(o.code = "" \/ (o.rt = o.code /\ o.rtcat = o.ccat), "GrpcRoundTripKeepsCode", "mismatch")
               \cup Add(o.exit = ExitOf(oc, Cat(oc.code)), "ExitCodeIsFunctionOfClass", "mismatch")
               \cup Add(o.api = ApiCat(oc, Cat(oc.code)) /\ o.api2 = ApiCatPlugin(oc, Cat(oc.code))
+                       \* ConnectorError / ProcessorError: code first, then their own two sentinels (none of which is among
+                       \* the sentinels of the case space), then the common ladder - on this space the same function as PluginError
+                       /\ o.api3 = ApiCatPlugin(oc, Cat(oc.code)) /\ o.api4 = ApiCatPlugin(oc, Cat(oc.code))
                        /\ o.apir = ApiReason(oc), "ApiStatusIsFunctionOfClass", "mismatch")
               \* ---- action properties: operand observation(s) -> result observation
               \cup (IF ~wf \/ Arity(t.op) = 0 THEN {} ELSE
